@@ -604,6 +604,9 @@ class Messenger(Connection):
     def close(self):
         self._idle_stop()
         self._keepalive_stop()
+        # octets received behind whatever made this side close are not
+        # acted upon any more
+        self.__rx_buf = b''
         super(Messenger, self).close()
 
     def _keepalive_stop(self):
